@@ -32,7 +32,7 @@ QuickL == {r \in NonFracL : r[2] \in {"mmol", "mol", "cm3(STP)", "g", "kg", "cm3
 QuickM == {r \in MReps : r[2] \in {"g", "kg", "cm3", "mol"}}
 TinyL == {r \in NonFracL : r[2] \in {"mmol", "cm3(STP)", "mg", "cm3"}}
 TinyM == {r \in MReps : r[2] \in {"g", "cm3", "mol"}}
-MidM == {r \in MReps : r[2] \in {"g", "kg", "cm3", "mol"}}
+MidM == {r \in MReps : r[2] \in {"g", "kg", "mg", "cm3", "L", "mol", "mmol"}}
 
 VARIABLES an, part, sS, sR
 vars == <<an, part, sS, sR>>
